@@ -44,6 +44,12 @@ def parseHashes (tok : String) : Option (List (String × Option Nat)) :=
       if b = "~" then pure (p, none) else pure (p, some (← b.toNat?))
     | _ => none
 
+def parsePatterns (tok : String) : Option (List (String × List String)) :=
+  if tok = "." then some [] else (tok.splitOn ";").mapM fun e =>
+    match e.splitOn ":" with
+    | [p, ms] => do pure (← unhex p, ← unhexList ms)
+    | _ => none
+
 def parseNeed : String → Option Need
   | "OPTIONAL" => some .optional | "DEFAULT" => some .default | "TARGET" => some .target | "PLAN" => some .plan
   | _ => none
@@ -98,6 +104,14 @@ def handle (sess : Session) : List String → Option (Session × String)
     pure <| finish sess do
       let (st, chk) ← sess.st.registerStaticTree sess.cfg c p
       pure (st, hexList (sortedStrs chk))
+  | ["declstatic", creator, trees, files, patterns] => do
+    let c ← parseKey creator
+    let ts ← unhexList trees
+    let fs ← unhexList files
+    let ps ← parsePatterns patterns
+    pure <| finish sess do
+      let (st, chk) ← sess.st.declareStaticRequest sess.cfg c ts fs ps
+      pure (st, hexList (sortedStrs (dedupSorted (sortedStrs chk))))
   | ["nglob", step, pattern, found] => do
     let k ← parseKey step
     let p ← unhex pattern
